@@ -112,6 +112,8 @@ class Ctx:
             if v.get('cls') in ('self-deadlock', 'unbalanced', 'thread-exit-holding', 'init-held-lock', 'unlock-not-held'):
                 lk = re.findall(r'(bidib_\w+|trackstate_\w+)', m)
                 site = '+'.join(lk[:3]) if lk else site
+            if v.get('cls') == 'format-string':
+                site = 'syslog'
             if v.get('cls') == 'join-not-live':
                 lk = re.findall(r'last owner: (\w+)', m)
                 site = lk[0] if lk else site
